@@ -19,8 +19,10 @@ EXPLANATION = (
     'is thread-local unless the manager is documented process-wide; (d) '
     'outermost-wins of coding.permission; (e) no non-idempotent release '
     'without acquire; (f) one thread-local key per setting and getters read '
-    'the key their scope sets.  Interleavings are not explored.')
-FLOORS = {'C17.a': 7, 'C17.b': 2, 'C17.c': 7, 'C17.d': 1, 'C17.e': 2, 'C17.f': 7}
+    'the key their scope sets; (g) the value read from the enclosing scope is '
+    'never modified in place (the inner scope works on a copy, or undoes its '
+    'registration in a shared per-thread container).  Interleavings are not explored.')
+FLOORS = {'C17.a': 7, 'C17.b': 2, 'C17.c': 7, 'C17.d': 1, 'C17.e': 2, 'C17.f': 7, 'C17.g': 2}
 FILES = [
     'pyglove/core/utils/thread_local.py', 'pyglove/core/symbolic/flags.py',
     'pyglove/core/utils/contextual.py', 'pyglove/core/utils/formatting.py',
@@ -882,6 +884,96 @@ def rule_tls_api(ctx):
          'stack selection changed')
 
 
+MUTATORS_INPLACE = ('update', 'append', 'extend', 'insert', 'pop', 'popitem', 'clear', 'remove',
+                    'add', 'discard', 'setdefault', 'sort', 'reverse')
+COPIERS = ('dict', 'list', 'set', 'tuple', 'frozenset', 'copy.copy', 'copy.deepcopy')
+SCOPE_READS = ('thread_local_get', 'thread_local_peek', 'thread_local_kwargs', 'getattr',
+               'get_scoped_value', 'get')
+
+
+def rule_g(ctx, gens):
+  """A scope builds its value from a COPY of the enclosing scope's value.
+
+  A local read from scoped storage before the yield (the enclosing scope's
+  value) must never be mutated in place, directly or through an alias:
+  otherwise the 'restore' puts back an object that already carries the inner
+  scope's settings, and they leak into the enclosing scope after exit."""
+  idx = ctx.index
+  n = 0
+  for f in sorted(gens, key=lambda x: x.fq):
+    fn = f.node
+    # locals holding the enclosing value: defined from a scoped read
+    outer = set()
+    for node in ast.walk(fn):
+      if isinstance(node, ast.Assign) and isinstance(node.value, ast.Call):
+        d = (A.call_name(node.value) or '').split('.')[-1]
+        if d in SCOPE_READS and d != 'get' or (d == 'get' and 'thread_local' in (A.call_name(node.value) or '')):
+          for t in node.targets:
+            outer |= set(A.assigned_names(t))
+    if not outer:
+      continue
+    # aliases: x = <outer name> (no copying call around it)
+    changed = True
+    while changed:
+      changed = False
+      for node in ast.walk(fn):
+        if isinstance(node, ast.Assign) and isinstance(node.value, ast.Name) and node.value.id in outer:
+          for t in node.targets:
+            for nm in A.assigned_names(t):
+              if nm not in outer:
+                outer.add(nm)
+                changed = True
+    # a name that is ALSO (re)defined from a copy is no longer the outer object
+    # on the paths after that definition; keep it simple and exact: a name is
+    # "outer" only if every definition of it is a scoped read or an alias.
+    def only_outer(nm):
+      for _, v in D.defs_of(fn, nm):
+        if v is None:
+          return False
+        if isinstance(v, ast.Name) and v.id in outer:
+          continue
+        if isinstance(v, ast.Call) and (A.call_name(v) or '').split('.')[-1] in SCOPE_READS:
+          continue
+        return False
+      return True
+    outer = {nm for nm in outer if only_outer(nm)}
+    # in-place mutations of the enclosing value, split at the yield
+    ys = [x.lineno for x in ast.walk(fn) if isinstance(x, (ast.Yield, ast.YieldFrom))]
+    first_yield = min(ys) if ys else 10 ** 9
+    muts = []   # (name, kind, text, lineno)
+    for node in ast.walk(fn):
+      if isinstance(node, ast.Call) and isinstance(node.func, ast.Attribute) \
+          and isinstance(node.func.value, ast.Name) and node.func.value.id in outer \
+          and node.func.attr in MUTATORS_INPLACE:
+        muts.append((node.func.value.id, node.func.attr, A.unparse(node, 60), node.lineno))
+      if isinstance(node, (ast.Assign, ast.AugAssign, ast.Delete)):
+        tg = node.targets if not isinstance(node, ast.AugAssign) else [node.target]
+        for t in tg:
+          if isinstance(t, (ast.Subscript, ast.Attribute)) and isinstance(t.value, ast.Name) and t.value.id in outer:
+            kind = 'delitem' if isinstance(node, ast.Delete) else 'setitem'
+            muts.append((t.value.id, kind, A.unparse(node, 60), node.lineno))
+    # a mutation before the yield is a registration in a shared per-thread
+    # container when the code after the yield undoes it on the same object
+    # (append <-> pop/remove, item store <-> pop/del/store back, add <-> discard);
+    # that pairing is what C17.a checks.  Anything else leaks.
+    INVERSE = {'append': ('pop', 'remove', 'delitem'), 'insert': ('pop', 'remove', 'delitem'),
+               'setitem': ('pop', 'delitem', 'setitem'), 'add': ('discard', 'remove'),
+               'setdefault': ('pop', 'delitem')}
+    bad = []
+    for nm, kind, text, line in muts:
+      if line >= first_yield:
+        continue
+      inv = INVERSE.get(kind, ())
+      if not any(n2 == nm and k2 in inv and l2 > first_yield for n2, k2, _, l2 in muts):
+        bad.append(f'`{text}` (line {line})')
+    n += 1
+    ctx.ob('C17.g', f.fq, not bad,
+           "the enclosing scope's value is never modified in place: the inner scope works on a copy",
+           f.loc, 'the value read from the enclosing scope (' + ', '.join(sorted(outer)) + ') is mutated in place by '
+           + ', '.join(bad) + ': the inner settings are still there after the scope exits')
+  return n
+
+
 def run(ctx):
   ctx.consult(*FILES)
   idx = ctx.index
@@ -897,6 +989,7 @@ def run(ctx):
     analyse_class(ctx, c)
   rule_d(ctx)
   rule_f(ctx)
+  rule_g(ctx, gens)
   rule_tls_api(ctx)
   ctx.note(f'{len(gens)} generator-based and {len(classes)} class-based context managers enumerated')
   ctx.assume('interleavings on several threads are not explored; thread isolation is '
